@@ -71,6 +71,12 @@ func optKind(o string) string {
 // lenClass makes the class of a boundary-length case name the field kind and length instead of the
 // constructor: a defect at the 253/254 boundary is one defect, whatever constructor shows it.
 func lenClass(c *ctor, p profile, class string) string {
+	if p.VecLen != "" {
+		if i := strings.IndexByte(class, '@'); i > 0 {
+			class = class[:i]
+		}
+		return class + "@vector-len-" + strings.SplitN(p.VecLen, ":", 2)[1]
+	}
 	if p.Len == "" {
 		return class
 	}
@@ -87,6 +93,27 @@ func lenClass(c *ctor, p profile, class string) string {
 	return class + "@" + kind + "-field-len-" + parts[1]
 }
 
+// encodeInto encodes v behind a prefix of the given length into a buffer whose whole capacity
+// (prefix and spare room, enough for the value: no reallocation) is filled with 0xA5 - the state of
+// a pooled, reset or partly filled bin.Buffer. It returns the bytes appended.
+func encodeInto(v reflect.Value, bare bool, prefix, room int) ([]byte, error) {
+	buf := make([]byte, prefix+room)
+	for i := range buf {
+		buf[i] = 0xA5
+	}
+	b := bin.Buffer{Buf: buf[:prefix]}
+	var err error
+	if bare {
+		err = v.Interface().(bin.BareEncoder).EncodeBare(&b)
+	} else {
+		err = v.Interface().(bin.Encoder).Encode(&b)
+	}
+	if err != nil || len(b.Buf) < prefix {
+		return nil, err
+	}
+	return append([]byte(nil), b.Buf[prefix:]...), err
+}
+
 func evalRT(w wRT) kit.Result {
 	r := evalRT0(w)
 	if r.Class != "" {
@@ -101,6 +128,9 @@ func evalRT0(w wRT) kit.Result {
 		mode := "boxed"
 		if bare {
 			mode = "bare"
+			if !c.hasBare() {
+				continue
+			}
 		}
 		v0 := (&builder{w.Prof}).build(c, 0)
 		b1, err := encodeValue(v0, bare)
@@ -108,6 +138,22 @@ func evalRT0(w wRT) kit.Result {
 			return kit.Bad("encode-error", "%s %s (%s): a well-formed value does not encode: %v", c.key(), w.Prof, mode, err)
 		}
 		b1 = append([]byte(nil), b1...)
+		// The encoding is a function of the value, not of the buffer it is appended to: the same
+		// value appended to a used buffer (pooled and reset, or already holding a header) must give
+		// the same bytes, otherwise "re-encoding yields identical bytes" fails for that pair of buffers.
+		for _, st := range []struct {
+			name         string
+			prefix, room int
+		}{{"dirty-spare-capacity", 4, len(b1) + 16}, {"unaligned-offset-exact-fit", 1, len(b1)}} {
+			bd, err := encodeInto(v0, bare, st.prefix, st.room)
+			if err != nil {
+				return kit.Bad("encode-error", "%s %s (%s): a well-formed value does not encode into a used buffer (%s): %v", c.key(), w.Prof, mode, st.name, err)
+			}
+			if !bytes.Equal(b1, bd) {
+				return kit.Bad("encode-depends-on-buffer:"+st.name, "%s %s (%s): appended to a fresh buffer the value encodes to %d bytes, appended after %d bytes of a buffer whose capacity holds 0xA5 to %d bytes, first difference at %d",
+					c.key(), w.Prof, mode, len(b1), st.prefix, len(bd), firstDiff(b1, bd))
+			}
+		}
 		v1 := reflect.ValueOf(c.new())
 		presetObjects(v0, v1)
 		src := append([]byte(nil), b1...)
@@ -135,12 +181,40 @@ func evalRT0(w wRT) kit.Result {
 		if !bytes.Equal(b1, b2) {
 			return kit.Bad("reencode-bytes", "%s %s (%s): re-encoding gives different bytes (%d vs %d bytes, first difference at %d)", c.key(), w.Prof, mode, len(b1), len(b2), firstDiff(b1, b2))
 		}
+		// The encoding followed by more data (the next object of a container, vector or stream):
+		// decoding yields the same value and stops exactly at the end of the encoding.
+		v2 := reflect.ValueOf(c.new())
+		presetObjects(v0, v2)
+		src2 := append(append([]byte(nil), b1...), trailer...)
+		rest, err := decodeInto(v2, src2, bare)
+		if err != nil {
+			return kit.Bad("decode-error:trailing-data"+innermostField(err), "%s %s (%s): own encoding (%d bytes) followed by %d more bytes does not decode: %v", c.key(), w.Prof, mode, len(b1), len(trailer), err)
+		}
+		if rest != len(trailer) {
+			return kit.Bad("decode-consumed-length", "%s %s (%s): decoding the %d-byte encoding followed by %d more bytes left %d bytes unread", c.key(), w.Prof, mode, len(b1), len(trailer), rest)
+		}
+		for i := range src2 {
+			src2[i] = 0x5A
+		}
+		if d := semEqual(v0, v2, shortName(c)); d != "" {
+			return kit.Bad("roundtrip-value:trailing-data", "%s %s (%s): decoded from the encoding followed by %d more bytes, the value differs from the encoded one at %s", c.key(), w.Prof, mode, len(trailer), d)
+		}
+	}
+	if w.Prof.VecLen != "" {
+		return kit.OKo("veclen:" + strings.SplitN(w.Prof.VecLen, ":", 2)[1])
 	}
 	if w.Prof.Len != "" {
 		return kit.OKo("len:" + strings.SplitN(w.Prof.Len, ":", 2)[1])
 	}
+	if c.wrapper != "" {
+		return kit.OKo(c.wrapper + ":" + optKind(w.Prof.Opt) + ":" + w.Prof.Scalars)
+	}
 	return kit.OKo(optKind(w.Prof.Opt) + ":" + w.Prof.Scalars)
 }
+
+// trailer: what follows the encoding in the trailing-data decode: a vector header announcing 2^31-1
+// elements and a long-form string header, so that a decoder that reads on trips over them.
+var trailer = []byte{0x15, 0xc4, 0xb5, 0x1c, 0xff, 0xff, 0xff, 0x7f, 0xfe, 0xff, 0xff, 0xff}
 
 var reField = regexp.MustCompile(`unable to decode (?:bare )?([A-Za-z0-9_.]+#[0-9a-f]+): field ([A-Za-z0-9_]+)`)
 
@@ -554,11 +628,11 @@ func main() {
 			c.NotExhaustive("only %d generated class decoders are listed in zz_classes_gen.go (re-run gen_classes.sh)", len(classDecoders))
 		}
 
-		c.Rule("Constructors: all %d entries of tg/mt/e2e TypesConstructorMap(). Values are built by reflection from a profile: scalars {z: zero, n: canonical non-zero, L (thorough): min ints / NaN / 254-byte strings / 256-byte bytes} x "+
+		c.Rule("Constructors: all %d types: every entry of tg/mt/e2e TypesConstructorMap() plus the generated helper types that have their own Encode/Decode but no constructor id (listed from the sources by gen_wrappers.sh): the 29 Vector<X> result boxes XVector{Elems} and the 261 class boxes XBox{X XClass} (no bare form). Values are built by reflection from a profile: scalars {z: zero, n: canonical non-zero, L (thorough): min ints / NaN / 254-byte strings / 256-byte bytes} x "+
 			"optional fields {none, all, each single flag-bit group (fields sharing a flag bit are switched together; present fields get their flag set like the generated setters do)} x vector length {0,1,2} x class-typed fields "+
-			"{constructor 0, 1 of the class; thorough: every constructor of the class for each field in turn}; in addition every string / bytes field (and vector of them) of every constructor, one at a time, with a value of exactly 0, 253, 254, 255 (TL short/long string form boundary), 1023, 1024, 4095, 4096, 4097, 65535, 65536 and 2^20 bytes (plausible copy / pooling thresholds; quick: the last three only for bytes fields; class <kind>-field-len-<n>); nesting depth 2 with the minimal constructor below; generic !X fields hold a tg function (and a nested generic). "+
-			"Round trip, boxed and bare: Encode succeeds, Decode into a fresh constructor-map value (generic object fields pre-set to the expected type), then the buffer that was decoded from is overwritten with 0xA5, and only then the value must equal the encoded one (floats by bits, nil = empty vector; class value-aliases-source if it was equal before the overwrite), "+
-			"re-encoding gives identical bytes. Decode safety (worker processes, 3 GiB limit): for 2 base encodings per constructor, decoded through the constructor (target from the constructor map), through DecodeBare, "+
+			"{constructor 0, 1 of the class; thorough: every constructor of the class for each field in turn}; in addition every string / bytes field (and vector of them) of every constructor, one at a time, with a value of exactly 0, 253, 254, 255 (TL short/long string form boundary), 1023, 1024, 4095, 4096, 4097, 65535, 65536 and 2^20 bytes (plausible copy / pooling thresholds; quick: the last three only for bytes fields; class <kind>-field-len-<n>); every vector field of every type, one at a time, with exactly 1023, 1024, 1025, 2047, 2048, 2049, 4097 elements (bin.PreallocateLimit = 1024 and its multiples: the capacity is the header length mod 1024; quick: 1025, and 1024 for vectors of scalars and the Vector<X> boxes; minimal elements, the constructors of a class in turn; class vector-len-<n>); nesting depth 2 with the minimal constructor below; generic !X fields hold a tg function (and a nested generic). "+
+			"Round trip, boxed and bare: Encode succeeds; the same value appended to a used buffer (4 bytes already in it and 0xA5 in all spare capacity; 1 byte in it, exact-fit capacity of 0xA5) gives the same bytes (class encode-depends-on-buffer:<state>); Decode into a fresh constructor-map value (generic object fields pre-set to the expected type), then the buffer that was decoded from is overwritten with 0xA5, and only then the value must equal the encoded one (floats by bits, nil = empty vector; class value-aliases-source if it was equal before the overwrite), "+
+			"re-encoding gives identical bytes; decoding the encoding followed by 12 more bytes (a vector header announcing 2^31-1 elements and a long string header) gives the same value and leaves exactly those 12 bytes (classes decode-consumed-length, roundtrip-value:trailing-data). Decode safety (worker processes, 3 GiB limit): for 2 base encodings per constructor, decoded through the constructor (target from the constructor map), through DecodeBare, "+
 			"and through each of the %d generated class decoders for each of its constructors: every prefix (quick: word steps, thorough: byte steps), every word position replaced by each of 13 words (DecodeBare, and in quick the second base encoding: only -1 and 2^31-1) "+
 			"(0,1,2,1023,1024,1025,2^20,2^31-1,-1,2^31,vector id,boolTrue id,string header fe ff ff ff), and the constructor id followed by 0..1500 copies of each word: no panic, value or error (never nil without error), "+
 			"and every vector in the (partially) decoded value has cap <= max(1024, 2*len+16). Deep nesting: every constructor that can contain itself through a class-typed field, nested to an encoding of 1 MiB (quick; 10 MiB for the "+
@@ -599,6 +673,22 @@ func main() {
 				}
 				for _, n := range lens {
 					rj = append(rj, wRT{ct.key(), profile{Scalars: "n", Opt: "all", Vec: 1, Pick: 0, Len: fmt.Sprintf("%s:%d", f.name, n)}})
+				}
+			}
+			for _, f := range ti.fields {
+				if !isVector(f.typ) {
+					continue
+				}
+				// both sides of bin.PreallocateLimit (capacity = header length mod 1024) and of its multiples
+				vlens := []int{1025}
+				if k := f.typ.Elem().Kind(); ct.wrapper != "" || (k != reflect.Interface && k != reflect.Struct && k != reflect.Slice) {
+					vlens = []int{1024, 1025} // quick: exactly the limit only for vectors of scalars and the Vector<X> boxes
+				}
+				if c.Thorough() {
+					vlens = []int{1023, 1024, 1025, 2047, 2048, 2049, 4097}
+				}
+				for _, n := range vlens {
+					rj = append(rj, wRT{ct.key(), profile{Scalars: "n", Opt: "all", Vec: 1, Pick: 0, VecLen: fmt.Sprintf("%s:%d", f.name, n)}})
 				}
 			}
 			if c.Thorough() {
@@ -678,8 +768,23 @@ func main() {
 		profs := []profile{{Scalars: "n", Opt: "all", Vec: 2, Pick: 0}, {Scalars: "n", Opt: "none", Vec: 1, Pick: 1}}
 		var sj []wSafe
 		var decodes int64
+		// helper types first: they are few, and a time budget that cuts the family short must not cut them
+		var safeOrder []*ctor
 		for _, ct := range reg.ctors {
+			if ct.wrapper != "" {
+				safeOrder = append(safeOrder, ct)
+			}
+		}
+		for _, ct := range reg.ctors {
+			if ct.wrapper == "" {
+				safeOrder = append(safeOrder, ct)
+			}
+		}
+		for _, ct := range safeOrder {
 			vias := []string{"ctor", "bare"}
+			if !ct.hasBare() {
+				vias = []string{"ctor"}
+			}
 			if hasObjectField(ct) {
 				vias = append(vias, "preset")
 			}
